@@ -1102,6 +1102,8 @@ _LIGHT_CALLS = {
     "PartialOrd::lt", "PartialOrd::le", "PartialOrd::gt", "PartialOrd::ge", "slice::<impl [T]>::starts_with", "slice::<impl [T]>::ends_with", "slice::<impl [T]>::contains",
     "Option::<T>::is_some", "Option::<T>::is_none", "Option::<T>::unwrap_or", "Option::<T>::unwrap_or_default", "Clone::clone", "Into::into", "From::from",
     "slice::<impl [T]>::to_vec", "ToOwned::to_owned", "slice::<impl [T]>::iter", "Iterator::count", "IntoIterator::into_iter", "slice::<impl [T]>::split_first", "slice::<impl [T]>::split_last",
+    # the crate's own byte-string zero test reads every byte of its argument
+    "IsZero::is_zero",
 }
 
 
@@ -1153,6 +1155,29 @@ def reads_directly(t, pnames, targets=()):
     return rec(t)
 
 
+def _folds_over_param(f, ev, d, pnames):
+    """The branch condition is computed by a loop that walks the bytes of one of the named parameters (a spliced
+    `is_zero` / checksum / comparison loop): `loop@h` in the condition whose iterator is `param.iter()`."""
+    cfg = f.cfg
+    for t in subterms(d):
+        if t.op != "loop":
+            continue
+        h = t.a[0]
+        body = set()
+        for src, hh in cfg.back_edges():
+            if hh == h:
+                body |= set(cfg.natural_loop(src, h))
+        for b in body:
+            s_ = ev.sites.get(b)
+            if s_ is None or s_.callee[0] != "Iterator::next" or not s_.args:
+                continue
+            it = B.peel(s_.args[0])
+            src_t = it.a[2] if it.op == "loop" else it
+            if any(x.op == "param" and x.a[1] in pnames for x in subterms(strip_sites(src_t))):
+                return True
+    return False
+
+
 def check_message_blind_control(ctx, rule, P, root_keys, pnames=("msg", "message"), floor=4):
     """Verification (and signing) decide through the hash of the message only: in every function reachable from the
     roots that has a message parameter, no branch condition reads the message itself (its length, its bytes).  A branch
@@ -1173,7 +1198,7 @@ def check_message_blind_control(ctx, rule, P, root_keys, pnames=("msg", "message
             continue
         n += 1
         ev = evaluate(f)
-        bad = [(b, d) for b, d in sorted(ev.switch.items()) if d is not None and reads_directly(d, mine)]
+        bad = [(b, d) for b, d in sorted(ev.switch.items()) if d is not None and (reads_directly(d, mine) or _folds_over_param(f, ev, d, mine))]
         ctx.ob(rule, k, not bad, "no branch of %s looks at the message itself%s" % (k, "" if not bad else ": " + show(strip_sites(bad[0][1]), 4)[:160]), where=where(f, bad[0][0]) if bad else where(f))
     ctx.floor(rule, "functions with a message parameter on the way", n, floor)
 
